@@ -43,7 +43,7 @@ def write_cases(proj, tier):
         if cls.endswith("boolarray-first"):
             continue  # a BOOL array written without an index is not specified by the docs
         if t.kind == "bit" or t.kind == "boolmember":
-            out += [(text, True, cls), (text, False, cls)]
+            out += [(text, True, cls), (text, False, cls), (text, 1, cls + "-int"), (text, 0, cls + "-int"), (text, 2, cls + "-int")]
         elif t.kind == "boolarray":
             if t.count == 1:
                 out += [(text, True, cls), (text, False, cls)]
@@ -53,6 +53,10 @@ def write_cases(proj, tier):
                 out.append((text, vals + [True], cls + "-long"))
                 if t.count > 1:
                     out.append((text, vals[:-1], cls + "-short"))
+                # BOOL elements are taken by truthiness: 0/1 ints, other truthy ints, a tuple instead of a list
+                ints = [(0, 1, 2, 255, 0, -1, 1 << 40, 0)[(i + t.start) % 8] for i in range(t.count)]
+                out.append((text, ints, cls + "-truthy-ints"))
+                out.append((text, tuple(vals), cls + "-tuple"))
         else:
             vals = Q.boundary_values(t.typ)
             if tier != "thorough" and len(vals) > 4 and cls.count("member") and not isinstance(t.typ, TypeDef):
@@ -180,6 +184,7 @@ def shards(tier, seed):
     sh += [("refused", "P2", pers, conn, "refused") for pers in ("v20", "v32", "m800") for conn in CONNS]
     # E2: call histories mixing good and failing reads and writes; the reference judges every step from the memory the history has produced
     sh += [("history", "P2", pers, conn, "history") for pers, conn in (("v20", 500), ("v32", 4000), ("m800", 500), ("v21", 4000))]
+    sh += [("history", "P2", "v20", 500, "history", "debuglog"), ("sweep", "P2", "v32", 500, "multi", "debuglog"), ("combos", "P1", "v20", 4000, "combo", "debuglog")]
     return sh
 
 
